@@ -18,7 +18,7 @@ Proof. intros Hn H. eapply id_equal_iff. eapply Inv2_run; eauto. Qed.
 
 Theorem distinct_run fx n tr s q1 q2 pg1 pg2 : n < 65536 -> run fx (init n) tr = Ok s -> young s ->
   q1 <> q2 -> pget (pings s) q1 = Some pg1 -> pget (pings s) q2 = Some pg2 ->
-  p_phase pg1 = Waiting -> p_phase pg2 = Waiting -> p_id pg1 <> p_id pg2.
+  outstanding pg1 = true -> outstanding pg2 = true -> p_id pg1 <> p_id pg2.
 Proof. intros Hn H. eapply ids_distinct. eapply Inv2_run; eauto. Qed.
 
 (* ------------------------------------------------------------------ *)
@@ -32,7 +32,7 @@ Proof.
 Qed.
 
 Definition count_begins (tr : list event) : N :=
-  fold_right (fun e acc => match e with Begin _ _ => acc + 1 | _ => acc end) 0 tr.
+  fold_right (fun e acc => match e with Begin _ => acc + 1 | BulkFail n => acc + n | _ => acc end) 0 tr.
 
 Lemma cnt_bounded fx tr : forall s, cnt s + count_begins tr < 65536 ->
   always fx (fun s => cnt s < 65536) s tr.
@@ -47,7 +47,7 @@ Qed.
 Lemma small_cnt_young s : cnt s < 65536 -> young s.
 Proof. intros H q pg _ _. lia. Qed.
 
-(* a history with fewer than 65536 calls in total is young throughout *)
+(* a history that hands out fewer than 65536 identifiers in total is young throughout *)
 Theorem few_begins_young fx n tr : count_begins tr < 65536 -> always fx young (init n) tr.
 Proof.
   intros H. eapply always_impl; [apply small_cnt_young|]. apply cnt_bounded. cbn [init cnt]. lia.
@@ -71,7 +71,7 @@ Proof. unfold known_C19_wrap. intros H. apply youngb_spec. destruct (youngb s); 
 Theorem table_exact fx n tr s : n < 65536 -> run fx (init n) tr = Ok s ->
   always fx young (init n) tr -> (fx = true \/ known_C19_sendfail tr = false) ->
   forall i q, tget (tbl s) i = Some q <->
-    exists pg, pget (pings s) q = Some pg /\ p_phase pg = Waiting /\ p_recv pg = false /\ p_id pg = i.
+    exists pg, pget (pings s) q = Some pg /\ outstanding pg = true /\ p_recv pg = false /\ p_id pg = i.
 Proof.
   intros Hn H A Hfx i q.
   destruct (Good_run _ _ _ _ _ (Good_init _ Hn) A H) as [[HI _ HE] _].
@@ -79,8 +79,7 @@ Proof.
   { apply (owned_run fx tr (init n) s Hfx (Inv_init n Hn)); [intros ? ?; cbn; discriminate|exact H]. }
   split.
   - intros T. destruct (inv_entry _ HI _ _ T) as (pg & Hp & Hid & _ & Hr).
-    exists pg. repeat split; auto. specialize (Ho _ _ T). unfold waiting in Ho. rewrite Hp in Ho.
-    destruct (p_phase pg); [reflexivity|discriminate].
+    exists pg. repeat split; auto. specialize (Ho _ _ T). unfold waiting in Ho. rewrite Hp in Ho. exact Ho.
   - intros (pg & Hp & W & R & Hid). subst i. apply HE; auto.
 Qed.
 
@@ -157,20 +156,59 @@ Proof.
   destruct (step fx s e); auto.
 Qed.
 
-Definition ex_pre : list event := [Begin 0%nat true].
-Definition ex_mid : list event := [Begin 2%nat true; Notify 1; Notify 3; Timeout 1%nat; Skip].
+Definition ex_pre : list event := [Begin 0%nat; Sent 0%nat true].
+(* call 1 (id 2): a foreign reply arrives while it is still inside its send, another one later *)
+Definition ex_mid : list event :=
+  [Notify 1; Sent 1%nat true; Begin 2%nat; Notify 3; Sent 2%nat true; Timeout 1%nat; Skip].
 Definition ex_post : list event := [End 0%nat; Notify 2].
-Definition ex_history : list event := ex_pre ++ Begin 1%nat true :: ex_mid ++ End 1%nat :: ex_post.
+Definition ex_history : list event := ex_pre ++ Begin 1%nat :: ex_mid ++ End 1%nat :: ex_post.
 
 Example ping_iff_nonvacuous :
   exists s, run false init_go ex_history = Ok s /\ always false young init_go ex_history /\
-            ~ In (End 1%nat) ex_mid /\
             id_of s 1%nat = Some 2 /\ result_of s 1%nat = Some RTimeout /\
             id_of s 0%nat = Some 1 /\ result_of s 0%nat = Some RNil /\
             id_of s 2%nat = Some 3 /\ result_of s 2%nat = None.
 Proof.
   eexists. split; [vm_compute; reflexivity|].
   split; [apply (alwaysb_spec false youngb young _ youngb_spec); vm_compute; reflexivity|].
-  split; [|repeat split; vm_compute; reflexivity].
-  cbn. intros [H|[H|[H|[H|[H|H]]]]]; try discriminate; exact H.
+  repeat split; vm_compute; reflexivity.
+Qed.
+
+(* a reply parsed while the call is still inside its send completes it: the waiter is registered
+   before the request is written *)
+Definition ex_during_send : list event :=
+  [Begin 0%nat; Notify 1; Sent 0%nat true; End 0%nat].
+Example reply_during_send :
+  exists s, run FIX24 init_go ex_during_send = Ok s /\ result_of s 0%nat = Some RNil /\ tbl s = [].
+Proof. eexists. split; [vm_compute; reflexivity|]. split; vm_compute; reflexivity. Qed.
+
+(* the send returning and a notification commute (a reply delivered by another goroutine right
+   after WriteTo may be parsed before or after the pinging goroutine sees WriteTo return) *)
+Lemma pset_pset l p v w : pset (pset l p v) p w = pset l p w.
+Proof.
+  induction l as [|[k u] r IH]; unfold pset; fold pset.
+  - rewrite Nat.eqb_refl. reflexivity.
+  - destruct (Nat.eqb_spec k p); unfold pset; fold pset.
+    + rewrite Nat.eqb_refl. reflexivity.
+    + destruct (Nat.eqb_spec k p); [lia|]. rewrite IH. reflexivity.
+Qed.
+
+Theorem sent_notify_comm fx s p i pg : Inv s ->
+  pget (pings s) p = Some pg -> p_phase pg = Sending ->
+  run fx s [Sent p true; Notify i] = run fx s [Notify i; Sent p true].
+Proof.
+  intros HI Hp Hph. pose proof (inv_entry _ HI) as Hent. cbn [run step]. rewrite Hp, Hph.
+  unfold set_pings. cbn [tbl pings next cnt].
+  destruct (tget (tbl s) i) as [q|] eqn:Eq.
+  - destruct (Hent _ _ Eq) as (pq & Hpq & Hiq & Hcq & _).
+    rewrite pget_pset. destruct (Nat.eqb_spec q p) as [->|Hne].
+    + rewrite Hp in Hpq. inversion Hpq; subst pq. cbn [p_closed]. rewrite Hp, Hcq.
+      cbn [tbl pings next cnt]. rewrite pget_pset, Nat.eqb_refl. cbn [p_phase]. rewrite Hph.
+      cbn [tbl pings next cnt p_id p_recv p_closed p_fired p_seq].
+      rewrite !pset_pset. reflexivity.
+    + rewrite Hpq, Hcq. cbn [tbl pings next cnt]. rewrite pget_pset.
+      destruct (Nat.eqb_spec p q); [congruence|]. rewrite Hp, Hph.
+      cbn [tbl pings next cnt]. f_equal. f_equal.
+      apply pset_comm; [congruence|congruence|congruence].
+  - cbn [tbl pings]. rewrite Hp, Hph. reflexivity.
 Qed.
